@@ -9,7 +9,7 @@
 (* decorations are applied in increasing feature order, stage by stage -   *)
 (* so each model is reached by exactly one behaviour.                      *)
 (***************************************************************************)
-EXTENDS FMSem, Json
+EXTENDS FMFormats, Json
 
 CONSTANTS
   N,          \* max number of features
@@ -22,6 +22,9 @@ CONSTANTS
   AttrNames,  \* sequence of attribute names
   AttrVals,   \* set of [val, dom, nul] token records offered by AddAttribute
   MaxCtc, CtcDepth, CtcBinOps,
+  CtcMinFeatures,
+  CtcArith,   \* BOOLEAN: also comparison / arithmetic / aggregate constraints
+  Fmt,        \* "" or a format: emit only models inside that format's fragment
   MaxLevel    \* bound on behaviour length (simulation / safety net)
 
 VARIABLES model, hist, stage, pos
@@ -74,21 +77,27 @@ AddConstraint(t) ==
      IN  /\ model' = AddConstraintF(model, n, t)
          /\ hist'  = Append(hist, [a |-> "AddConstraint", n |-> n, ast |-> t])
 
+\* constraints are added only to models with at least CtcMinFeatures features
+CtcReady == Len(model.feats) >= CtcMinFeatures
+
 Next ==
   \/ \E o \in 1..N, k \in 1..MaxKids : \E c \in CardChoices(k) : AddRelation(o, k, c[1], c[2])
   \/ \E i \in 1..N : SetAbstract(i)
   \/ \E i \in 1..N, t \in Types : SetType(i, t)
   \/ \E i \in 1..N, c \in FCards : SetFCard(i, c)
   \/ \E i \in 1..N, k \in DOMAIN AttrNames, v \in AttrVals : AddAttribute(i, k, v)
-  \/ \E t \in TreesOver(Names(model), CtcBinOps, CtcDepth) : AddConstraint(t)
+  \/ /\ "ctc" \in Axes /\ Len(model.ctcs) < MaxCtc /\ CtcReady
+     /\ \E t \in TreesOver(Names(model), CtcBinOps, CtcDepth)
+                 \cup (IF CtcArith THEN ArithTrees(Names(model)) ELSE {}) : AddConstraint(t)
 
 Spec == Init /\ [][Next]_vars
 
 LevelBound == TLCGet("level") <= MaxLevel
 
+
 ---------------------------------------------------------------------------
 (* Case emission: one JSON line per distinct state (generator runs only)   *)
-Emit == PrintT(ToJson([hist |-> hist, model |-> model]))
+Emit == (Fmt = "" \/ InFrag(Fmt, model)) => PrintT(ToJson([hist |-> hist, model |-> model]))
 
 ---------------------------------------------------------------------------
 (* Design-level invariants and the oracle lemmas (DESIGN 3.4).  A violated *)
